@@ -32,7 +32,7 @@ from vlib import nsim  # noqa: E402
 
 PROP = "C26"
 EXCLUDE = set()  # input classes excluded by construction behind a finding (none)
-BATCH = 12  # run cases per emulated program
+BATCH = 24  # run cases per emulated program (one selene build)
 TOL = 1e-9
 
 HEADER = """from guppylang import guppy
@@ -705,16 +705,24 @@ def replay(case):
     return None
 
 
-def bucket_of(kind, case):
+def features(case):
+    """feature set used to name a bucket (taken from the *minimised* case) and to attribute later
+    failures of the same kind to an already minimised root cause."""
     circ = case["circ"]
-    feats = [case["mode"]]
+    f = set()
+    if case["mode"] != "flat":
+        f.add(case["mode"])
     if symbols_first_occurrence(circ):
-        feats.append("syms")
+        f.add("syms")
     if len(circ["qregs"]) > 1:
-        feats.append("qregs2")
+        f.add("qregs2")
     if any(op["g"] == "Measure" for op in circ["ops"]):
-        feats.append("measure")
-    return f"{kind}:{'+'.join(feats)}"
+        f.add("measure")
+    return f
+
+
+def bucket_of(kind, case):
+    return f"{kind}:{'+'.join(sorted(features(case))) or 'plain'}"
 
 
 def renormalise(case):
@@ -738,6 +746,14 @@ def candidates(case):
         if c2["ops"]:
             out.append(renormalise(dict(case, circ=c2, _syms=syms)))
     n = n_qubits(circ)
+    if case["mode"] != "flat":
+        out.append(dict(case, mode="flat"))
+    if len(circ["qregs"]) > 1:
+        # one register holding the same qubits in the same (sorted) order
+        units = sorted_units(circ["qregs"])
+        ren = {(ri, i): [0, units.index((nm, i))] for ri, (nm, sz) in enumerate(circ["qregs"]) for i in range(sz)}
+        ops = [dict(op, q=[ren[tuple(q)] for q in op["q"]]) for op in circ["ops"]]
+        out.append(dict(case, circ=dict(circ, qregs=[["q", n]], ops=ops)))
     if any(p[0] != "0" for p in case["prep"]):
         out.append(dict(case, prep=[["0"]] * n))
         for q in range(n):
@@ -915,14 +931,20 @@ def worker(ctx):
     ctx.notes["tolerance"] = TOL
     strategy = strategies()
     pending = []
-    minimised = set()
+    known = {}  # bucket -> (kind, feature set) of minimised root causes
     shrink_spent = [0.0]
     SHRINK_CAP = ctx.budget_s * 0.35
 
-    def emit(kind, case, detail):
-        sig = bucket_of(kind, case)
+    def emit(sig, case, detail):
         c = dict(public(case), bucket=sig, source=case_source(case))
         ctx.violation(sig, c, f"{detail}\n--- program (emulator seed {case['seed']})\n{case_source(case)}")
+
+    def attribute(kind, case):
+        f = features(case)
+        for sig, (k2, f2) in known.items():
+            if k2 == kind and f2 <= f:
+                return sig
+        return None
 
     def flush():
         if not pending:
@@ -931,6 +953,7 @@ def worker(ctx):
         pending.clear()
         seed = cases[0]["seed"]
         verdicts = evaluate_batch(cases, seed)
+        fails = []
         for c, (kind, detail, bits) in zip(cases, verdicts):
             if kind == "__unsupported__":
                 ctx.unsupported_case(detail[:120])
@@ -945,21 +968,28 @@ def worker(ctx):
             nontriv, labels = classify(c, bits) if bits is not None else (False, {"mode:" + c["mode"]})
             ctx.case({"circ": c["circ"], "mode": c["mode"], "prep": c["prep"], "perm": c["perm"], "vals": c["vals"]},
                      nontriv and not kind, labels=sorted(labels), sample=case_source(c) if nontriv else None)
-            if not kind:
-                continue
+            if kind:
+                fails.append((c, kind, detail))
+        # smallest first: its minimised form names the bucket the others are attributed to
+        for c, kind, detail in sorted(fails, key=lambda x: len(case_source(x[0]))):
+            sig = attribute(kind, c)
             small = c
-            sig = bucket_of(kind, c)
-            if sig not in minimised and shrink_spent[0] < SHRINK_CAP and not ctx.out_of_time(0.85):
-                t0 = time.monotonic()
-                small = minimise(c, seed, kind, t0 + min(ctx.budget_s * 0.15, SHRINK_CAP - shrink_spent[0]), time.monotonic)
-                shrink_spent[0] += time.monotonic() - t0
-                k2, d2, _ = evaluate_batch([small], seed)[0]
-                if k2 == kind:
-                    detail = d2
+            if sig is None:
+                if shrink_spent[0] < SHRINK_CAP and not ctx.out_of_time(0.85):
+                    t0 = time.monotonic()
+                    small = minimise(c, seed, kind, t0 + min(ctx.budget_s * 0.2, SHRINK_CAP - shrink_spent[0]),
+                                     time.monotonic)
+                    shrink_spent[0] += time.monotonic() - t0
+                    k2, d2, _ = evaluate_batch([small], seed)[0]
+                    if k2 == kind:
+                        detail = d2
+                    else:
+                        small = c
+                    sig = bucket_of(kind, small)
+                    known[sig] = (kind, features(small))
                 else:
-                    small = c
-                minimised.add(bucket_of(kind, small))
-            emit(kind, small, detail)
+                    sig = kind + ":unminimised"
+            emit(sig, small, detail)
 
     def body(case):
         if case["kind"] == "shape":
@@ -992,7 +1022,7 @@ SPEC = harness.Spec(
           "or sym / c*sym+d / sym+sym / sym*sym over 0-3 symbols (names permuted from a pool), Measure into distinct bits "
           "(kinds: unitary / basis-state / superposed). Run cases (4/5): loaded by load_pytket(use_arrays=True|False) or a "
           "matching @guppy.pytket stub, called on a drawn product state with the qubits passed in a drawn permutation and "
-          "distinct angle values; 12 cases share one emulated program; one evaluation = returned bools + state_result "
+          "distinct angle values; 24 cases share one emulated program; one evaluation = returned bools + state_result "
           "compared with the reference. Shape cases (1/5, compile only): stub / flat call / array call whose qubit, parameter "
           "or bool count (or one array size) is off by one, array-typed stubs, and the exact shape. non-trivial = run case "
           "whose reference state changes when two qubit arguments or two parameter values are exchanged; distinct = distinct "
@@ -1008,9 +1038,9 @@ SPEC = harness.Spec(
         "array-typed @guppy.pytket stubs never match (the decorator is documented as not supporting arrays); a mismatching stub must be rejected with the pytket signature-mismatch error, a mismatching call with any GuppyError",
         "gates the installed selene cannot build (SX U1-3 TK1 TK2 CH CV CS CSX SWAP ECR CRx CRy CU1 XXPhase YYPhase ISWAP FSim ESWAP CSWAP ...) and Reset / Barrier / conditional gates are outside the domain",
     ],
-    shards={"quick": 16, "thorough": 16},
+    shards={"quick": 8, "thorough": 16},
     budget_s={"quick": 90, "thorough": 840},
-    params={"quick": {"n": 120}, "thorough": {"n": 2400}},
+    params={"quick": {"n": 150}, "thorough": {"n": 2400}},
     min_nontrivial=150,
 )
 
